@@ -23,6 +23,7 @@
    Three switches stand for the three defects the property text names:
      failed_start_shares_session  (variant of the second) connClosed filters by a number advanced only when an
                              established session is closed: a failed Start's notification hits the next session
+     cfg_chan_shared         cfgErrC is created once instead of by every Start: a result nobody consumed survives
      close_takes_srv_result  close() waits for the server loop on srvErrC, the channel Run() receives from
      cfg_ok_unsent / cfg_hookerr_unsent / cfg_reject_unsent   Configure returns without handing its result
                              to Start on that path (accepted / hook failed / mask refused): phase AwaitLost
@@ -69,6 +70,27 @@ Theorem C16_start_result : forall sw s a,
   (ph s' = Idle /\ last_start s' = Some ResErr /\ started s' = false).
 Proof. exact start_result. Qed.
 Print Assumptions C16_start_result.
+
+(* a session's configuration result belongs to that session: with the channel through which Configure reports
+   created anew by every Start, a pending Start can end configured only because the Configure of ITS OWN
+   session was handled and accepted while it waited (never on a result left over from an earlier session) *)
+Theorem C16_start_succeeds_on_own_configure : forall sw s a,
+  cfg_chan_shared sw = false -> reachable sw s -> start_pending s = true -> ph (step sw s a) = Configured ->
+  a = ECfgOk /\ ph s = AwaitConfigure /\ conn_live (sconn s) = true.
+Proof. intros sw s a D R. exact (start_succeeds_on_own_configure sw s a D (reachable_wf sw s R)). Qed.
+Print Assumptions C16_start_succeeds_on_own_configure.
+
+(* FALSE for the variant [shared_cfg_chan] (the channel is created once, in New).  Witness: the connection is
+   dropped while the plugin's slow Configure hook is still running: Start gives up with an error, the hook
+   then posts its result; the next Start reports success right after registration, without any Configure *)
+Theorem C16_stale_configuration_refuted :
+  exists l, reachable shared_cfg_chan (run shared_cfg_chan init l) /\
+    let s := run shared_cfg_chan init l in
+    ph s = Idle /\ last_start s = Some ResErr /\ stale_cfg s = true /\
+    let s' := run shared_cfg_chan s [AStart; EDialOk; ISetupOk; ERegOk] in
+    ph s' = Configured /\ last_start s' = Some ResOk /\ started s' = true.
+Proof. exact stale_configuration_refuted. Qed.
+Print Assumptions C16_stale_configuration_refuted.
 
 (* FALSE for the pinned code.  Witness: registration answered, connection dropped before Configure.
    Start is pending, no event is enabled, and after ANY further sequence of actions it is still
@@ -286,7 +308,8 @@ Print Assumptions C16_stale_notification_partial.
 (* the switch settings the theorems are instantiated with *)
 Example C16_ex_fixed :
   wait_cfg_unguarded fixed = false /\ stale_close_unfiltered fixed = false /\ dead_conn_reused fixed = false /\
-  failed_start_shares_session fixed = false /\ results_sent fixed /\ close_takes_srv_result fixed = false.
+  failed_start_shares_session fixed = false /\ results_sent fixed /\ close_takes_srv_result fixed = false /\
+  cfg_chan_shared fixed = false.
 Proof. repeat split. Qed.
 
 (* a reachable state with a Start under way (hypotheses of C16_start_returns) *)
@@ -299,7 +322,7 @@ Proof. split; [eexists; reflexivity|]. vm_compute. repeat split. Qed.
 (* reachable idle states after each kind of failure, and the restart from them *)
 Example C16_ex_restart :
   forall b, In b [BUnreachable; BRefuse; BDropInReg; BSilentReg; BDropAfterReg; BCfgError; BCfgReject;
-                  BCfgErrorDrop; BCfgRejectDrop; BDropAfterCfg] ->
+                  BCfgErrorDrop; BCfgRejectDrop; BDropInSlowCfg; BCfgThenRefuse; BDropAfterCfg] ->
   let s := settle fixed (run_start fixed init b) in
   ph s = Idle /\ ph (run fixed s healthy_start) = Configured.
 Proof. intros b H. cbn in H. repeat destruct H as [<-|H]; try contradiction; vm_compute; split; reflexivity. Qed.
@@ -358,6 +381,19 @@ Example C16_ex_run :
       {| o_class := KBlocked; o_started := None; o_closes := 0; o_waiting := 0; o_running := 0 |}]
      (run_ops srv_result_shared init [ORun BHealthy; OStop; OStart BHealthy]).
 Proof. vm_compute. repeat split; auto. Qed.
+
+(* the driver's scenario for a configuration result that outlives its session *)
+Example C16_ex_stale_cfg :
+  run_ops fixed init [OStart BDropInSlowCfg; OStart BDropAfterReg] =
+    [[{| o_class := KErr; o_started := Some false; o_closes := 1; o_waiting := 0; o_running := 0 |};
+      {| o_class := KErr; o_started := Some false; o_closes := 2; o_waiting := 0; o_running := 0 |}]] /\
+  run_ops shared_cfg_chan init [OStart BDropInSlowCfg; OStart BDropAfterReg] =
+    [[{| o_class := KErr; o_started := Some false; o_closes := 1; o_waiting := 0; o_running := 0 |};
+      {| o_class := KOk; o_started := Some false; o_closes := 2; o_waiting := 0; o_running := 0 |}]] /\
+  run_ops shared_cfg_chan init [OStart BCfgThenRefuse; OStart BDropAfterReg] =
+    [[{| o_class := KErr; o_started := Some false; o_closes := 1; o_waiting := 0; o_running := 0 |};
+      {| o_class := KOk; o_started := Some false; o_closes := 2; o_waiting := 0; o_running := 0 |}]].
+Proof. vm_compute. repeat split. Qed.
 
 Example C16_ex_ops_fixed :
   run_ops fixed init [OStart BDropAfterReg] = [[{| o_class := KErr; o_started := Some false; o_closes := 1; o_waiting := 0; o_running := 0 |}]] /\
